@@ -169,7 +169,8 @@ class Dataset:
         rperm = pres.get("row_perm") or list(range(self.nv_static))
         for i in rperm:
             v = self.static_volumes[i]
-            t.append(f"{v:.10f} " + " ".join(f"{self.static_gpa(k, numpy.array([v]))[0]:.10f}" for k in cols))
+            fmt = "%.12E" if pres.get("exponent") else "%.10f"          # (exponent notation carries as many digits as the plain one)
+            t.append(f"{v:.10f} " + " ".join(fmt % self.static_gpa(k, numpy.array([v]))[0] for k in cols))
         if self.lattice:
             t.append("lattice parameters")
             ax = self.axes(self.static_volumes)
